@@ -101,6 +101,13 @@ Theorem C16_dra_add_nonneg : forall d o,
 Proof. exact dra_add_nonneg. Qed.
 Print Assumptions C16_dra_add_nonneg.
 
+(* for the reachable (non-negative) operands the wrapping subtraction of Sub cannot wrap *)
+Theorem C16_dra_sub_count : forall d o,
+  in64 (d_count d) -> in64 (d_count o) -> 0 <= d_count d -> 0 <= d_count o ->
+  d_count (dra_sub d (Some o)) = Z.max 0 (d_count d - d_count o).
+Proof. exact dra_sub_count. Qed.
+Print Assumptions C16_dra_sub_count.
+
 Theorem C16_dra_sub_never_negative : forall d o, 0 <= d_count (dra_sub d (Some o)).
 Proof. exact dra_sub_never_negative. Qed.
 Print Assumptions C16_dra_sub_never_negative.
@@ -148,8 +155,9 @@ Theorem C16_convert_new_resource : forall rl k, rl_exact rl = true ->
 Proof. exact convert_new_resource. Qed.
 Print Assumptions C16_convert_new_resource.
 
-(* ... and for EVERY list: each amount goes through float64 rounding (round to nearest even) and int64(f) *)
-Theorem C16_convert_new_resource_any : forall rl k,
+(* ... and for every list whose Quantities fit int64 in the unit NewResource reads them (rl_in_range; beyond,
+   apimachinery wraps — not modelled): each amount goes through float64 rounding and int64(f) *)
+Theorem C16_convert_new_resource_any : forall rl k, rl_in_range rl = true ->
   let c x := i64 (f64 x) in
   let rl' := convert (fst (new_resource rl)) in
   match name_class k with
@@ -174,33 +182,46 @@ Theorem C16_qvalue_bounds : forall m,
 Proof. exact qvalue_bounds. Qed.
 Print Assumptions C16_qvalue_bounds.
 
-(* --- ResFloat642Quantity / ResQuantity2Float64 (int64 truncation, milli for cpu / whole units otherwise,
-   Value() rounding away from zero), for every grid g > 0, every amount, both name classes --- *)
-Theorem C16_float_quantity_float : forall g c x, 0 < g ->
+(* --- ResFloat642Quantity / ResQuantity2Float64: int64(f) truncation and range, milli for cpu / whole units
+   otherwise, float64(MilliValue()) / float64(Value()) rounding.  Stated ON THE DOMAIN where the amount is a
+   float64 (conv_domain: g a power of two, x and its integer part float64-exact, inside int64) resp. the value
+   read from the Quantity is a float64-exact int64 (qty_domain); refuted outside --- *)
+Theorem C16_float_quantity_float : forall g c x, conv_domain g x = true ->
   quantity_to_float g c (float_to_quantity g c x) = g * Z.quot x g.
 Proof. exact float_quantity_float. Qed.
 Print Assumptions C16_float_quantity_float.
 
-Theorem C16_float_quantity_float_id : forall g c x, 0 < g ->
+Theorem C16_float_quantity_float_id : forall g c x, conv_domain g x = true ->
   (quantity_to_float g c (float_to_quantity g c x) = x <-> (g | x)).
 Proof. exact float_quantity_float_id. Qed.
 Print Assumptions C16_float_quantity_float_id.
 
-Theorem C16_float_quantity_float_bounds : forall g c x, 0 < g ->
+Theorem C16_float_quantity_float_bounds : forall g c x, conv_domain g x = true ->
   let y := quantity_to_float g c (float_to_quantity g c x) in
   (0 <= x -> y <= x < y + g) /\ (x <= 0 -> y - g < x <= y).
 Proof. exact float_quantity_float_bounds. Qed.
 Print Assumptions C16_float_quantity_float_bounds.
 
-Theorem C16_quantity_float_quantity : forall g c m, 0 < g ->
+Theorem C16_quantity_float_quantity : forall g c m, 0 < g -> qty_domain c m = true ->
   float_to_quantity g c (quantity_to_float g c m) = if c then m else 1000 * qvalue m.
 Proof. exact quantity_float_quantity. Qed.
 Print Assumptions C16_quantity_float_quantity.
 
-Theorem C16_quantity_float_quantity_id : forall g c m, 0 < g -> (c = true \/ (1000 | m)) ->
-  float_to_quantity g c (quantity_to_float g c m) = m.
+Theorem C16_quantity_float_quantity_id : forall g c m, 0 < g -> qty_domain c m = true ->
+  (c = true \/ (1000 | m)) -> float_to_quantity g c (quantity_to_float g c m) = m.
 Proof. exact quantity_float_quantity_id. Qed.
 Print Assumptions C16_quantity_float_quantity_id.
+
+(* 2^53+1 milli-cpu comes back as 2^53; the float 2^63 becomes MinInt64 milli (amd64) — as on the real code *)
+Theorem C16_quantity_float_quantity_refuted :
+  exists m, qty_domain true m = false /\ float_to_quantity 1 true (quantity_to_float 1 true m) <> m.
+Proof. exact quantity_float_quantity_refuted. Qed.
+Print Assumptions C16_quantity_float_quantity_refuted.
+
+Theorem C16_float_quantity_float_refuted :
+  exists x, conv_domain 1 x = false /\ quantity_to_float 1 true (float_to_quantity 1 true x) <> x.
+Proof. exact float_quantity_float_refuted. Qed.
+Print Assumptions C16_float_quantity_float_refuted.
 
 (* --- where TaskInfo.DRAResreq comes from (cache.addDRAResource / buildTaskDRAInfo, after fix 63830d0):
    the per-class count a pod's device requests add up to is min(MaxInt64, exact sum), and whatever the
@@ -218,11 +239,15 @@ Theorem C16_task_dra_counts_ok : forall claims refs r per,
 Proof. exact build_task_dra_counts_ok. Qed.
 Print Assumptions C16_task_dra_counts_ok.
 
-Theorem C16_job_ok_of_dmap_ok : forall j,
-  (forall t rq, In t (j_tasks j) -> t_req t = Some rq -> dmap_ok rq) ->
-  (forall r n, j_tma j !! r = Some n -> in64 n) -> job_ok j.
-Proof. exact job_ok_of_dmap_ok. Qed.
-Print Assumptions C16_job_ok_of_dmap_ok.
+(* composed: a job whose tasks carry what buildTaskDRAInfo returned has non-negative, exactly saturating
+   GetMinDRAResources counts — no hypothesis on the counts other than the per-request apiserver guarantee *)
+Theorem C16_min_dra_from_cache : forall j c,
+  (forall t, In t (j_tasks j) -> task_from_cache t) ->
+  (forall r n, j_tma j !! r = Some n -> in64 n) ->
+  0 <= count_of (result_at (get_min_dra j) c) /\
+  count_of (result_at (get_min_dra j) c) = Z.min max64 (exact_sum (class_terms c (contribs j))).
+Proof. exact min_dra_from_cache. Qed.
+Print Assumptions C16_min_dra_from_cache.
 
 (* --- group laws --- *)
 Theorem C16_add_sub_pointwise : forall r x,
@@ -239,6 +264,14 @@ Print Assumptions C16_add_sub_exact.
 Theorem C16_sub_nil_drops_scalars : forall r x, sc r = None -> sc (sub r x) = None.
 Proof. exact sub_nil_drops_scalars. Qed.
 Print Assumptions C16_sub_nil_drops_scalars.
+
+Theorem C16_add_empty : forall r, add r empty_res = r.
+Proof. exact add_empty. Qed.
+Print Assumptions C16_add_empty.
+
+Theorem C16_sub_empty : forall r, sub r empty_res = r.
+Proof. exact sub_empty. Qed.
+Print Assumptions C16_sub_empty.
 
 Theorem C16_add_comm : forall r x,
   cpu (add r x) = cpu (add x r) /\ mem (add r x) = mem (add x r) /\
@@ -424,7 +457,7 @@ Theorem C16_law_rt_res_accepts_model : forall r,
 Proof. exact law_rt_res_model. Qed.
 Print Assumptions C16_law_rt_res_accepts_model.
 
-Theorem C16_law_rt_list_accepts_model : forall rl,
+Theorem C16_law_rt_list_accepts_model : forall rl, rl_in_range rl = true ->
   law_rt_list rl (fst (new_resource rl)) (snd (new_resource rl)) (convert (fst (new_resource rl))) = true.
 Proof. exact law_rt_list_model. Qed.
 Print Assumptions C16_law_rt_list_accepts_model.
@@ -459,8 +492,8 @@ Theorem C16_law_min_inf_accepts_model : forall r rr, law_min_inf r rr (min_dim r
 Proof. exact law_min_inf_model. Qed.
 Print Assumptions C16_law_min_inf_accepts_model.
 
-Theorem C16_law_f2q2f_accepts_model : forall g c x mant e, 0 < g ->
-  float_is mant e (Z.quot x g) = true ->
+Theorem C16_law_f2q2f_accepts_model : forall g c x mant e,
+  (conv_domain g x = true -> float_is mant e (Z.quot x g) = true) ->
   law_f2q2f g c x (float_to_quantity g c x) mant e = true.
 Proof. exact law_f2q2f_model. Qed.
 Print Assumptions C16_law_f2q2f_accepts_model.
@@ -507,9 +540,20 @@ Proof. vm_compute. repeat split; reflexivity. Qed.
 
 Example C16_conv_nonvacuous :
   conv_domain 1 4007 = true /\ quantity_to_float 1 true (float_to_quantity 1 true 4007) = 4007 /\
-  float_to_quantity 16 true (16 * 4007 + 9) = 4007 /\ quantity_to_float 1 false 2500 = 3 /\
-  float_to_quantity 1 true (quantity_to_float 1 true 4007) = 4007.
+  conv_domain 16 (16 * 4007 + 9) = true /\ float_to_quantity 16 true (16 * 4007 + 9) = 4007 /\
+  conv_domain 1 (3 * 2 ^ 60) = true /\ qty_domain false 2500 = true /\ quantity_to_float 1 false 2500 = 3 /\
+  qty_domain true (2 ^ 63 - 1024) = true /\
+  float_to_quantity 1 true (quantity_to_float 1 true (2 ^ 63 - 1024)) = 2 ^ 63 - 1024 /\
+  conv_domain 3 10 = false.
 Proof. exact conv_nonvacuous. Qed.
+
+Example C16_build_task_dra_nonvacuous :
+  let claims := ({[1%positive := [mkRaw 0 1%positive (2 ^ 62) ∅; mkRaw 0 1%positive (2 ^ 62) ∅]]}
+                 : gmap positive (list rawreq)) in
+  claims_ok claims /\
+  exists r per, build_task_dra claims [1%positive] = BuildOk (Some (r, per)) /\
+                count_of (r !! 1%positive) = max64.
+Proof. exact build_task_dra_nonvacuous. Qed.
 
 (* above 2^53: 2^63-1024 milli-cpu, 1 Ei of memory, 2^53+2 pods, 3*2^60 milli-bytes of ephemeral-storage lie
    in rt_domain and come back unchanged; 2^53+1 is not a float64 *)
